@@ -4,4 +4,4 @@ set -u
 cd /repo && git apply "$1" || { echo "patch does not apply"; exit 2; }
 cd /verif && ./check.sh "$2" quick | tail -${3:-6}
 echo "exit=$?"
-cd /repo && git checkout -- . && git status --short | head -3
+cd /repo && git apply -R "$1" && git status --short | head -3
